@@ -24,7 +24,7 @@ Terms are nested tuples (hashable, printable):
   ('phi', (t..))                       merge of several reaching definitions
   ('carried', name, loop_id)           value left over from a previous loop iteration (or undefined)
   ('undef', name)                      no reaching definition on this path
-  ('comp', kind, elt, ((target_names, iter, (conds..))..))    comprehension; bound names are ('bound', n)
+  ('comp', kind, elt, ((('names', n..), iter, (conds..))..))    comprehension; bound names are ('bound', n)
   ('local', name, alloc_id, init)     a local bound to a freshly allocated container (identity kept so that
                                        later mutations -- stores, .append, .sort -- can be related to it)
   ('lambda', text) ('starred', t) ('fstr', (t..)) ('exc', name)   ('unknown', text)
@@ -113,7 +113,7 @@ def show(t, depth=0):
     if k == "undef":
         return "undef(%s)" % t[1]
     if k == "comp":
-        gens = " ".join("for %s in %s%s" % (",".join(g[0]), show(g[1]), "".join(" if " + show(c) for c in g[2]))
+        gens = " ".join("for %s in %s%s" % (",".join(g[0][1:]), show(g[1]), "".join(" if " + show(c) for c in g[2]))
                         for g in t[3])
         return "%s<%s %s>" % (t[1], show(t[2]), gens)
     if k == "starred":
@@ -143,6 +143,25 @@ def walk(t):
 _KINDS = set(["const", "param", "global", "attr", "sub", "call", "binop", "unary", "boolop", "cmp", "tuple", "list",
               "set", "dict", "ifexp", "elem", "idx", "phi", "carried", "undef", "comp", "lambda", "starred", "fstr",
               "exc", "unknown", "bound", "slice", "local"])
+
+
+def children(t):
+    """direct sub-terms of a term"""
+    if not isinstance(t, tuple) or not t or t[0] == "const":
+        return
+    for x in t[1:]:
+        for y in _terms_in(x):
+            yield y
+
+
+def _terms_in(x):
+    if isinstance(x, tuple):
+        if x and isinstance(x[0], str) and x[0] in _KINDS:
+            yield x
+        else:
+            for y in x:
+                for z in _terms_in(y):
+                    yield z
 
 
 def subst(t, fn):
@@ -397,8 +416,8 @@ class Extractor(object):
             gens = []
             for g in node.generators:
                 it = self.expr(g.iter, env, guards, loops, b)
-                names = tuple(sorted(self._assigned_names([ast.Assign(targets=[g.target], value=ast.Constant(None))])))
-                b |= set(names)
+                names = ("names",) + tuple(sorted(self._assigned_names([ast.Assign(targets=[g.target], value=ast.Constant(None))])))
+                b |= set(names[1:])
                 conds = tuple(self.expr(c, env, guards, loops, b) for c in g.ifs)
                 gens.append((names, it, conds))
             if isinstance(node, ast.DictComp):
@@ -445,6 +464,7 @@ class Extractor(object):
                 value = ("local", target.id, self._alloc, value)
                 self.locals_alloc[(target.id, self._alloc)] = value
             env[target.id] = value
+            self.emit("bind", ("bound", target.id), value, guards, loops, node)
         elif isinstance(target, (ast.Tuple, ast.List)):
             if value[0] in ("tuple", "list") and len(value[1]) == len(target.elts):
                 for t, v in zip(target.elts, value[1]):
@@ -516,6 +536,7 @@ class Extractor(object):
             v = ("binop", OPS.get(type(s.op), "?"), cur, E(s.value))
             if isinstance(s.target, ast.Name):
                 env[s.target.id] = v
+                self.emit("bind", ("bound", s.target.id), v, guards, loops, s, extra="aug")
             else:
                 self.emit("store", E(s.target), v, guards, loops, s, extra="aug")
             return True, env, ()
